@@ -1395,7 +1395,10 @@ class BayesianNetwork(DAG):
 
         # Step 6: Postprocess and return
         if include_latents:
-            return samples.astype("category")
+            # drop the helper nodes added for virtual evidence / intervention
+            return samples.loc[
+                :, [col for col in samples.columns if col in self.nodes()]
+            ].astype("category")
         else:
             return (samples.loc[:, list(set(self.nodes()) - self.latents)]).astype(
                 "category"
